@@ -360,7 +360,9 @@ def vers_rules(ctx, facts, rep):
         ok &= rep.check(good, rule, "45-iff-zip64", where(vn, vn.span), "45 only when a ZIP64 field is needed", "version 45 is not tied to zip64_extension()")
     if 46 in vals and "Bzip2" in inv:
         fs = dominating_facts(vn, ex, vals[46])
-        good = any(x[0] == "Eq" and x[1][0] == "discr" and x[2][2] == inv["Bzip2"] for x in fs)
+        good = any(x[0] == "Eq" and x[1][0] == "discr" and x[2][2] == inv["Bzip2"] for x in fs) or \
+            any(x[0] == "truth" and x[2] is True and x[1][0] == "call" and x[1][1].endswith("PartialEq::eq") and len(x[1][2]) == 2 and
+                any(a[0] == "agg" and a[1] == "adt:Bzip2" for a in x[1][2]) and any(".compression_method" in tokens(a) for a in x[1][2]) for x in fs)
         ok &= rep.check(good, rule, "46-iff-bzip2", where(vn, vn.span), "46 only for bzip2 (APPNOTE 4.4.3.2)", "version 46 is not tied to the bzip2 method")
     return ok
 
